@@ -47,6 +47,19 @@ CLAIMS["C14"] = dict(level="model_checking", tech="TLA+ tokenizer state machine 
          "guarded memory and each call is judged by TraceTok.tla against the model's own reference position",
     ref="§3 C14", note="strings of length <= 4/5 exhaustively, longer only by seeded random sessions; trusted: TLC, harness/htok.c (records only)")
 
+CLAIMS["C09"] = dict(level="model_checking", tech="TLA+ grammar-accurate format parser (Printf.tla) checked by TLC over the directive grammar + replay through all 16 printf and 12 scanf entry points with sentinel targets + TLC trace validation",
+    text="TLC enumerates formats built around n directives (every flag set, width, precision, length modifier, escaped-percent contexts, and escaped text "
+         "that only looks like %n) and checks NConvIffBuilt/ParserRecovers on the contract's parser; every format is executed through every entry "
+         "point with a sentinel behind each pointer argument and TracePrintf.tla requires: no sentinel changed, the call rejected with one EINVAL "
+         "report, and no rejection on account of a literal n",
+    ref="§3 C09", note="scanf formats come from a fixed piece table; trusted: TLC, harness/hpf.c (records only), x86-64 SysV variadic call shapes")
+CLAIMS["C11"] = dict(level="model_checking", tech="TLA+ transcription of the C printf layout rules (Printf.tla: parser, limb arithmetic, integer/char/string rendering, floating candidates) + TLC-enumerated directive space replayed through the 8 narrow entry points + TLC trace validation",
+    text="the expected characters of d i u x X o c s % lc ls are computed in TLA+ from the C standard's rules (64-bit values as 16-bit limbs), for f F e E "
+         "as the set of renderings within one unit of the last printed digit of glibc's 45-digit expansion; TLC enumerates flags x width x precision x "
+         "length x conversion x boundary arguments x dmax around the needed size, every case is executed (buffers in guarded memory, streams through "
+         "tmpfile / redirected stdout, twice in different orders) and every event is judged by TracePrintf.tla",
+    ref="§3 C11", note="floating accuracy: digit-string comparison against glibc's expansion (trusted), no IEEE model; %g %G %a %A %p have no text oracle; wide printf text not judged; known limitations of the embedded float formatter are named deviations (known_findings.txt)")
+
 NOT_YET = {
 }
 
